@@ -104,6 +104,7 @@ structure Fiber where
   denv : Option Nat := none     -- fiber->env (index into State.denvs)
   last : Val := .nil
   root : Bool := false          -- JANET_FIBER_FLAG_ROOT
+  passThrough : Bool := false   -- this fiber's live activation sits in the child branch of janet_continue_no_check
   deriving Repr, Inhabited
 
 structure DEnv where
@@ -249,24 +250,24 @@ def unwind : State → List FId → FId → Nat → Val → State
         if sig = sigOk ∨ testBit fc.mask sig = true then
           -- caught by p (the resumer of c)
           let v' := if cont.isNext then (if nextNil.contains sig then Val.nil else Val.int 0) else v
-          if fp.status = stAlive then
+          if fp.passThrough = false then
             -- p was inside run_vm (JOP_RESUME / JOP_CANCEL / JOP_NEXT): `fiber->child = NULL; stack[A] = retreg`
             deliverValue { s with stack := p :: rest } p { fp with child := none } cont v'
           else
             -- p was in the child branch of janet_continue_no_check: `fiber->child = NULL`, then run_vm(p, in)
             match fp.pending with
             | some sg =>
-              let fp' := { fp with child := none, pending := none, status := sg, last := v' }
+              let fp' := { fp with child := none, pending := none, status := sg, last := v', passThrough := false }
               unwind (s.setFiber p fp') rest p sg v'
             | none =>
-              deliverValue { s with stack := p :: rest } p { fp with child := none, status := stAlive } cont v'
+              deliverValue { s with stack := p :: rest } p { fp with child := none, status := stAlive, passThrough := false } cont v'
         else
           -- not caught: p takes the same status; `fiber->last_value = child->last_value` resp. the payload
           let cv := if inCcall fp then coerce sig v else (sig, v)
-          let lastv := if fp.status = stAlive then cv.2 else fc.last
+          let lastv := if fp.passThrough = false then cv.2 else fc.last
           -- (patched tree) child branch of janet_continue_no_check: a child refused because it is alive is unlinked
-          let ch := if staleChildCleared && fp.status != stAlive && fc.status == stAlive then none else fp.child
-          unwind (s.setFiber p { fp with status := cv.1, last := lastv, child := ch }) rest p cv.1 cv.2
+          let ch := if staleChildCleared && fp.passThrough && fc.status == stAlive then none else fp.child
+          unwind (s.setFiber p { fp with status := cv.1, last := lastv, child := ch, passThrough := false }) rest p cv.1 cv.2
     | _, _ => s.stop (.bad "unwind: no such fiber")
 
 /-- The running fiber `p` (head of the stack, `rest` below it) leaves run_vm with `(sig, v)`:
@@ -297,17 +298,20 @@ def contNoCheck : Nat → State → List FId → FId → Val → State
     match s.fiber? f with
     | none => s.stop (.bad "continue: no such fiber")
     | some ff0 =>
-      let ff := { ff0 with last := .nil }
-      let s := s.setFiber f ff
-      match ff.child with
+      match ff0.child with
       | some c =>
+        -- child branch; (patched tree) the fiber is marked alive while its child runs
+        let ff := { ff0 with last := .nil, passThrough := true, status := if chainAliveMarked then stAlive else ff0.status }
+        let s := s.setFiber f ff
         match s.fiber? c with
         | none => s.stop (.bad "continue: no such child")
         | some fc =>
           match checkCanResume fc false with
           | some msg => unwind s (f :: stk) c sigError msg      -- janet_continue(child) refused; child untouched
           | none => contNoCheck fuel s (f :: stk) c v
-      | none => startRun s stk f ff v
+      | none =>
+        let ff := { ff0 with last := .nil }
+        startRun (s.setFiber f ff) stk f ff v
 
 /-- `while (child->child) child = child->child;` — none = does not terminate. -/
 def deepest (s : State) : Nat → FId → Option FId
@@ -435,31 +439,31 @@ def execPrim (s : State) (p : FId) (fp : Fiber) (rest : List FId) (l : Nat) (pr 
     | .fib g => bind s fp (match s.fiber? g with | some fg => fg.last | none => .nil)
     | _ => bind s fp (.kw "nofib")
   | .setdyn kk a =>
-    let (s, fp, e) := ensureEnv s p fp
-    match s.denvs[e]? with
-    | none => s.stop (.bad "setdyn: no such env")
+    let r := ensureEnv s p fp
+    match r.1.denvs[r.2.2]? with
+    | none => r.1.stop (.bad "setdyn: no such env")
     | some d =>
-      let s := { s with denvs := s.denvs.set e { d with tbl := tblPut d.tbl kk (ev a) } }
-      bind s fp (ev a)
+      let s' : State := { r.1 with denvs := r.1.denvs.set r.2.2 { d with tbl := tblPut d.tbl kk (ev a) } }
+      bind s' r.2.1 (ev a)
   | .dyn kk => bind s fp (dynLookup s.denvs (s.denvs.length + 1) fp.denv kk)
 
 /-- `fiber/new` with a flags argument: status new, mask from the letters, env by :i / :p (in letter order). -/
+def newEnvStep (p : FId) (acc : State × Fiber × Option Nat) (c : Nat) : State × Fiber × Option Nat :=
+  if c = letterInherit then
+    let r := ensureEnv acc.1 p acc.2.1
+    (r.1, r.2.1, some r.2.2)
+  else if c = letterProto then
+    let r := ensureEnv acc.1 p acc.2.1
+    let e' := r.1.denvs.length
+    ({ r.1 with denvs := r.1.denvs ++ [{ proto := some r.2.2, tbl := [] }] }, r.2.1, some e')
+  else acc
+
 def execNew (s : State) (p : FId) (fp : Fiber) (l : Nat) (body : Tm) (flags : List Nat) (k : Tm) : State :=
   let g := s.fibers.length
-  let r := flags.foldl (fun (acc : State × Fiber × Option Nat) c =>
-      let (s, fp, de) := acc
-      if c = letterInherit then
-        let (s, fp, e) := ensureEnv s p fp
-        (s, fp, some e)
-      else if c = letterProto then
-        let (s, fp, e) := ensureEnv s p fp
-        let e' := s.denvs.length
-        ({ s with denvs := s.denvs ++ [{ proto := some e, tbl := [] }] }, fp, some e')
-      else (s, fp, de)) (s, fp, none)
-  let (s, fp, de) := r
-  let nf : Fiber := { status := stNew, mask := maskOfFlags flags, ctl := .run body, env := fp.env, denv := de }
-  let s := { s with fibers := s.fibers ++ [nf] }
-  deliverValue s p fp (.bindK l k false) (.fib g)
+  let r := flags.foldl (newEnvStep p) (s, fp, none)
+  let nf : Fiber := { status := stNew, mask := maskOfFlags flags, ctl := .run body, env := r.2.1.env, denv := r.2.2 }
+  let s' : State := { r.1 with fibers := r.1.fibers ++ [nf] }
+  deliverValue s' p r.2.1 (.bindK l k false) (.fib g)
 
 /-- `(next f nil)` issued by the `each` loop of fiber `p`. -/
 def execLoopNext (s : State) (p : FId) (fp : Fiber) (rest : List FId) (l : Nat) (f : Atom) (body : Tm) (k : Tm) : State :=
